@@ -7,11 +7,13 @@
 #
 # @author Davide Brunato <brunato@sissa.it>
 #
+import re
 from abc import abstractmethod
 from collections.abc import Iterator, Sequence
 from typing import cast, overload, Any, Optional, TypeVar, Union, TYPE_CHECKING
 
-from elementpath import XPathSchemaContext, LazyElementNode, SchemaElementNode
+from elementpath import XPathSchemaContext, LazyElementNode, SchemaElementNode, \
+    XPathToken, ElementPathTypeError
 from elementpath.protocols import XsdElementProtocol
 
 from xmlschema.aliases import NsmapType, SchemaType, BaseXsdType
@@ -24,6 +26,33 @@ if TYPE_CHECKING:
     from ..validators import XsdGlobals
 
 E_co = TypeVar('E_co', covariant=True, bound='ElementPathMixin[Any]')
+
+
+def parse_schema_path(path: str, namespaces: NsmapType) -> XPathToken:
+    """
+    Parses a path for the find/findall/iterfind API of XSD components. The paths built
+    from the tags of an XML document can contain expanded names with a namespace name
+    that is not a valid URI: they can't be written as braced URI literals (XQST0046),
+    so their namespace names are mapped to prefixes.
+    """
+    try:
+        return SchemaFindParser(namespaces, strict=False).parse(path)
+    except ElementPathTypeError as err:
+        if 'XQST0046' not in str(err):
+            raise
+
+        nsmap = dict(namespaces)
+        prefixes: dict[str, str] = {}
+
+        def use_prefix(match: 're.Match[str]') -> str:
+            namespace = match.group(1)
+            if namespace not in prefixes:
+                prefixes[namespace] = f'ns__{len(prefixes)}'
+                nsmap[prefixes[namespace]] = namespace
+            return f'{prefixes[namespace]}:'
+
+        path = re.sub(r'{([^{}]+)}', use_prefix, path)
+        return SchemaFindParser(nsmap, strict=False).parse(path)
 
 
 class ElementPathMixin(Sequence[E_co]):
@@ -103,9 +132,9 @@ class ElementPathMixin(Sequence[E_co]):
         """
         if namespaces is None:
             namespaces = self.namespaces
-        parser = SchemaFindParser(namespaces, strict=False)
         context = XPathSchemaContext(self.xpath_node)
-        return cast(Optional[E_co], next(parser.parse(path).select_results(context), None))
+        token = parse_schema_path(path, namespaces)
+        return cast(Optional[E_co], next(token.select_results(context), None))
 
     def findall(self, path: str, namespaces: Optional[NsmapType] = None) -> list[E_co]:
         """
@@ -118,9 +147,8 @@ class ElementPathMixin(Sequence[E_co]):
         """
         if namespaces is None:
             namespaces = self.namespaces
-        parser = SchemaFindParser(namespaces, strict=False)
         context = XPathSchemaContext(self.xpath_node)
-        return cast(list[E_co], parser.parse(path).get_results(context))
+        return cast(list[E_co], parse_schema_path(path, namespaces).get_results(context))
 
     def iterfind(self, path: str, namespaces: Optional[NsmapType] = None) -> Iterator[E_co]:
         """
@@ -132,9 +160,8 @@ class ElementPathMixin(Sequence[E_co]):
         """
         if namespaces is None:
             namespaces = self.namespaces
-        parser = SchemaFindParser(namespaces, strict=False)
         context = XPathSchemaContext(self.xpath_node)
-        return cast(Iterator[E_co], parser.parse(path).select_results(context))
+        return cast(Iterator[E_co], parse_schema_path(path, namespaces).select_results(context))
 
     def iter(self, tag: Optional[str] = None) -> Iterator[E_co]:
         """
